@@ -52,6 +52,12 @@ def outline(src, ret_types, log):
                         op = s[n + 5]
                         cl = match_close(toks, op)
                         jobs.append((it, s[n + 6], s[n + 8], cl))
+                want2 = ["tokio", "::", "spawn", "(", "async", "move", "{"]
+                for n in range(len(s) - len(want2)):
+                    if all(toks[s[n + k]].text == want2[k] for k in range(len(want2))) and isinstance(ret_types.get(it.path()), dict):
+                        op = s[n + 3]
+                        cl = match_close(toks, op)
+                        jobs.append((it, s[n + 4], s[n + 6], cl))
             walk(it.children)
     walk(items)
     if not jobs:
@@ -78,6 +84,22 @@ def outline(src, ret_types, log):
         key = it.path()
         if key not in ret_types:
             raise ValueError("R-outline: no return type configured for the closure in %s" % key)
+        if isinstance(ret_types[key], dict):
+            # tokio::spawn(async move { BODY })  ->  tokio::spawn(Self::NAME(ARGS))  +  async fn NAME(PARAMS) { BODY }
+            cfg = ret_types[key]
+            e = cl - 1
+            while toks[e].kind in WS:
+                e -= 1
+            emit(pos, mv)
+            out.append(("Self::%s(%s)" % (cfg["name"], cfg["args"]), tline[mv]))
+            pos = cl
+            seg = [("\n    async fn %s(%s) -> %s\n    " % (cfg["name"], cfg["params"], cfg.get("ret", "()")), None)]
+            for k in range(b0, e + 1):
+                seg.append((toks[k].text, tline[k]))
+            seg.append(("\n", None))
+            pending_after.setdefault(it.end, []).extend(seg)
+            log("R-outline: async block of tokio::spawn in %s -> async fn %s(%s)" % (key, cfg["name"], cfg["args"]))
+            continue
         # parameters of F
         s = _sig(toks, it.kw, it.open)
         p_open = next(i for i in s if toks[i].text == "(")
